@@ -1268,6 +1268,8 @@ def oracle_short_reads(data, cl, sizes, hist):
                 got = r.body_file_seekable.read()
             else:
                 got = r.copy().body
+                if r.body_file_raw.tell() != 0:
+                    return (KEY_COPY_EOF, "step %d: the original's wsgi.input is left at offset %d after copy()" % (k, r.body_file_raw.tell()))
         except wr.DisconnectionError:
             got = DISC
         except Exception as e:  # noqa
@@ -1292,7 +1294,7 @@ def oracle_short_reads(data, cl, sizes, hist):
                 cur = len(held)
             else:
                 want = held
-                cur = len(held) if o == "copy" else 0
+                cur = 0
             if got != want:
                 return ("short-reads:wrong-bytes", "step %d %s(%r) on the held body returned %s, expected %s" % (k, o, a, short_repr(got), short_repr(want)))
         elif o == "fread":
@@ -1302,7 +1304,7 @@ def oracle_short_reads(data, cl, sizes, hist):
         else:
             if got != body or cur != 0 and got:
                 return ("short-reads:wrong-bytes", "step %d %s returned %s, the body is %s" % (k, o, short_repr(got), short_repr(body)))
-            held, cur = got, (len(got) if o in ("sread", "copy") else 0)
+            held, cur = got, (len(got) if o == "sread" else 0)
     return None
 
 
@@ -1801,11 +1803,14 @@ def run(ctx):
     ctx.assume += [
         "wsgi.input.read(n) returns n bytes unless the stream ends (WSGI file semantics); a server stream that returns "
         "short reads while more data is coming would be reported as disconnected by LimitedLengthFile",
-        "an input flagged webob.is_body_seekable holds exactly CONTENT_LENGTH bytes (webob's own setters maintain this); "
-        "for other lengths only .body and .copy() are claimed (theorem C10_body_seekable_any_length, oracle 4): "
-        ".body_file / .body_file_seekable hand out the seekable file object itself, unlimited",
-        "after part of a NON-seekable body has been consumed through .body_file, the whole-body paths raise "
-        "DisconnectionError (the consumed bytes cannot be recovered); this is what the specification machine says too",
+        "theorems about handles assume that an input flagged webob.is_body_seekable holds exactly CONTENT_LENGTH bytes; for "
+        "other lengths .body and .copy() are proved (C10_body_seekable_any_length) and checked, while .body_file / "
+        ".body_file_seekable hand out the file itself: reported by the oracle as the known deviation "
+        "seekable-input:body_file-unlimited (witness theorem C10_seekable_body_file_unlimited_refuted)",
+        "after part of a NON-seekable body has been consumed through .body_file the whole-body paths raise "
+        "DisconnectionError (declared length) or capture only the remainder (terminated input): the model and the "
+        "specification machine reproduce this, the oracle reports it as the known deviations "
+        "partial-body_file-read-then-whole-body:* (witness theorems C10_partial_read_then_body*_refuted)",
         "call_application: the application is modelled as reading only a seekable (rewound) body; on a non-seekable "
         "input webob passes the environ through untouched",
         "CONTENT_LENGTH: the model takes the parsed value; the harness parses like descriptors.parse_int_safe (int() with "
